@@ -44,7 +44,7 @@ Section OpqLeaf.
     destruct (olex k canon) as [key'|] eqn:El; [|discriminate]. apply Z.eqb_eq in Hl. subst key'.
     exists (SOpq k key canon). split; [|apply sval_equiv_refl].
     assert (Hx : xbase_of (BOpq k) = XOpq k) by (destruct k; try reflexivity; congruence).
-    rewrite Hx. unfold pr_text, pr_leaf. rewrite okind_eqb_refl. cbn [xs_value]. rewrite Ht, El. reflexivity.
+    rewrite Hx. unfold schema_text, pr_text, pr_leaf. rewrite okind_eqb_refl. cbn [xs_value]. rewrite Ht, El. reflexivity.
   Qed.
 
   (** delegated classes with range facets, and those without facets: what Spyne writes for a
@@ -61,7 +61,7 @@ Section OpqLeaf.
     assert (k' = k) as -> by (match goal with H : kind_ok _ _ = true |- _ => cbn in H; destruct k, k'; try discriminate H; reflexivity end).
     exists canon. split; [rewrite Hb; unfold pr_leaf; rewrite okind_eqb_refl; reflexivity|].
     destruct (opq_lex_rt k (SOpq k key canon)) as (v' & Hx & Heq); [cbn; destruct k; reflexivity|exact Hok|exact Hu|].
-    unfold pr_text, pr_leaf in Hx. rewrite okind_eqb_refl in Hx.
+    unfold schema_text, pr_text, pr_leaf in Hx. rewrite okind_eqb_refl in Hx.
     unfold st_simple_ok. rewrite Hb, Hx.
     destruct (range_kind k) eqn:Erk.
     - assert (Hst : st_base st = BOpq k) by exact Hb.
@@ -118,20 +118,32 @@ Section AllLeaves.
     rewrite (Hpat p r eq_refl). rewrite andb_true_r. assumption.
   Qed.
 
-  (** the hypothesis left for decimal.Decimal (discharged in C06/DecProofs.v) *)
-  Definition dec_leaf_hyp : Prop :=
-    forall st d, st_base st = BDec -> wf_stype st = true -> leaf_conf st (SDec d) = true ->
+  (** str(Decimal) has no exponent: exponent <= 0 and adjusted exponent >= -6 *)
+  Definition dec_plain_region (d : decimal) : bool :=
+    (d_exp d <=? 0) && (-6 <? d_exp d + len (str_nat (d_coeff d))).
+  (** what may be written on the wire: the libraries agree on delegated values, and a Decimal
+      is one that str() writes without exponent (known finding C06|decimal|exponent-notation) *)
+  Definition wire_ok (v : sval) : bool :=
+    opq_ok olex ord v && match v with SDec d => dec_plain_region d | _ => true end.
+
+  (** the two facts about decimal.Decimal texts (proved in C06/DecProofs.v) *)
+  Definition dec_wire_hyp : Prop :=
+    forall st d, st_base st = BDec -> wf_stype st = true -> leaf_conf st (SDec d) = true -> dec_plain_region d = true ->
       st_simple_ok pat olex st (dec_print decimal_printer d) = true.
+  Definition dec_literal_hyp : Prop :=
+    forall st d, st_base st = BDec -> wf_stype st = true -> leaf_conf st (SDec d) = true ->
+      st_simple_ok pat olex st (schema_text BDec (SDec d)) = true.
 
   Theorem leaf_emit_all st v :
-    dec_leaf_hyp ->
+    dec_wire_hyp ->
     wf_stype st = true ->
     (forall p r, fa_pattern (st_fa st) = Some (p, r) -> pat p = Some r) ->
     (forall g, In g (facet_values (st_fa st)) -> opq_ok olex ord g = true) ->
-    leaf_conf st v = true -> opq_ok olex ord v = true ->
+    leaf_conf st v = true -> wire_ok v = true ->
     exists s, pr_leaf (st_base st) v = Ok s /\ st_simple_ok pat olex st s = true.
   Proof.
-    intros Hdec Hwf Hpat Hfv Hlc Hok. destruct (st_base st) as [k|u| | |k] eqn:Hb.
+    intros Hdec Hwf Hpat Hfv Hlc Hwok. unfold wire_ok in Hwok. apply andb_prop in Hwok. destruct Hwok as [Hok Hreg].
+    destruct (st_base st) as [k|u| | |k] eqn:Hb.
     - (* integers *)
       destruct v as [z| | | |]; try (unfold leaf_conf in Hlc; rewrite Hb in Hlc; cbn in Hlc; discriminate).
       exists (str_int z). split; [reflexivity|].
@@ -164,6 +176,25 @@ Section AllLeaves.
       all: try (rewrite <- Hb; eapply opq_emit_ok; try eassumption; discriminate).
       rewrite <- Hb. apply uuid_emit_ok; assumption.
   Qed.
+  (** the same for what the schema emitter writes for a facet, enumeration or default value *)
+  Theorem leaf_literal_all st v :
+    dec_wire_hyp -> dec_literal_hyp ->
+    wf_stype st = true ->
+    (forall p r, fa_pattern (st_fa st) = Some (p, r) -> pat p = Some r) ->
+    (forall g, In g (facet_values (st_fa st)) -> opq_ok olex ord g = true) ->
+    leaf_conf st v = true -> opq_ok olex ord v = true ->
+    st_simple_ok pat olex st (schema_text (st_base st) v) = true.
+  Proof.
+    intros Hd1 Hd2 Hwf Hpat Hfv Hlc Hok.
+    destruct (st_base st) as [k|u| | |k] eqn:Hb.
+    4: { destruct v as [| | |d|]; try (unfold leaf_conf in Hlc; rewrite Hb in Hlc; cbn in Hlc; discriminate).
+         apply Hd2; assumption. }
+    all: assert (Hw : wire_ok v = true)
+      by (unfold wire_ok; rewrite Hok; destruct v; try reflexivity; unfold leaf_conf in Hlc; rewrite Hb in Hlc; cbn in Hlc; discriminate).
+    all: destruct (leaf_emit_all st v Hd1 Hwf Hpat Hfv Hlc Hw) as (s & Hs & Hv); rewrite Hb in Hs.
+    all: destruct v; try (unfold leaf_conf in Hlc; rewrite Hb in Hlc; cbn in Hlc; discriminate).
+    all: unfold schema_text, pr_text; rewrite Hs; exact Hv.
+  Qed.
 End AllLeaves.
 
 
@@ -174,7 +205,7 @@ Definition patterns_known (pat : text -> option re) (U : univ) : Prop :=
   forall st p r, In (DLeaf st) (tys_of U) -> fa_pattern (st_fa st) = Some (p, r) -> pat p = Some r.
 Definition constants_ok (olex : okind -> text -> option Z) (ord : okind -> text -> out Z) (U : univ) : Prop :=
   (forall st g, In (DLeaf st) (tys_of U) -> In g (facet_values (st_fa st)) -> opq_ok olex ord g = true)
-  /\ (forall cl f d, In cl U -> In f (k_own cl) -> fl_default f = Some d -> opq_ok olex ord d = true).
+  /\ (forall cl f d, In cl U -> In f (k_own cl) -> fl_default f = Some d -> wire_ok olex ord d = true).
 
 Section Docs.
   Variable pat : text -> option re.
@@ -182,23 +213,30 @@ Section Docs.
   Variable ord : okind -> text -> out Z.
 
   Theorem emitted_doc_valid (U : univ) (S : schema) :
-    dec_leaf_hyp pat olex ->
+    dec_wire_hyp pat olex -> dec_literal_hyp pat olex ->
     wf_univ U = true -> resolves S U -> patterns_known pat U -> constants_ok olex ord U ->
     forall n c cl v e m,
       get_klass U c = Some cl -> v <> NNone ->
-      vconf U (opq_ok olex ord) n (DRef c) v = true ->
+      vconf U (wire_ok olex ord) n (DRef c) v = true ->
       emit U n (DRef c) None (k_ns cl) (k_name cl) v = Ok e ->
       (n + length U < m)%nat ->
       valid_doc pat olex m S (wire e) = true.
   Proof.
-    intros Hdec Hwf Hres Hpat [Hc1 Hc2] n c cl v e m Hc Hne Hconf Hemit Hm.
+    intros Hdec Hlit Hwf Hres Hpat [Hc1 Hc2] n c cl v e m Hc Hne Hconf Hemit Hm.
     assert (Hleaf : forall st v0, In (DLeaf st) (tys_of U) -> wf_stype st = true -> leaf_conf st v0 = true ->
-                      opq_ok olex ord v0 = true ->
+                      wire_ok olex ord v0 = true ->
                       exists s, pr_leaf (st_base st) v0 = Ok s /\ st_simple_ok pat olex st s = true).
     { intros st v0 Hin Hw Hl Ho. apply (leaf_emit_all pat olex ord st v0 Hdec Hw); try assumption.
       - intros p r Hp. eapply Hpat; eassumption.
       - intros g Hg. eapply Hc1; eassumption. }
-    pose proof (emit_valid pat olex U S (opq_ok olex ord) Hwf Hres Hleaf Hc2 n) as HV.
+    assert (Hliteral : forall st v0, In (DLeaf st) (tys_of U) -> wf_stype st = true -> leaf_conf st v0 = true ->
+                      wire_ok olex ord v0 = true ->
+                      st_simple_ok pat olex st (schema_text (st_base st) v0) = true).
+    { intros st v0 Hin Hw Hl Ho. apply (leaf_literal_all pat olex ord st v0 Hdec Hlit Hw); try assumption.
+      - intros p r Hp. eapply Hpat; eassumption.
+      - intros g Hg. eapply Hc1; eassumption.
+      - unfold wire_ok in Ho. apply andb_prop in Ho. exact (proj1 Ho). }
+    pose proof (emit_valid pat olex U S (wire_ok olex ord) Hwf Hres Hleaf Hliteral Hc2 n) as HV.
     destruct (emit_shape _ _ _ _ _ _ _ _ Hemit) as (atts & txt & kids & ->).
     rewrite wire_shape. unfold valid_doc.
     destruct (rs_elem S U Hres c cl Hc) as (d & Hd & Ha). rewrite Hd, Ha.
